@@ -13,4 +13,8 @@ CHECKS = {
         technique="property-based testing: exhaustive float32 mantissa sweeps + Hypothesis float64/triple generation against exact rational arithmetic and a TFLite QuantizeMultiplier / Add-Sub-Mul Prepare reference; exhaustive accumulator sweeps for average-pool divisors",
         text="quantise_scale/reduced_quantise_scale on all 2^23 mantissas of chosen exponents, all exponents, doubles next to powers of two; quantise_pooling_scale on every reachable accumulator for windows <=256 (8-bit) and ties/ends up to 65536; add/sub/mul triples against the TFLite derivation, with the argument types production uses (np.float32).",
         note="trusted base: tflref.py re-derivation of the TFLite reference (QuantizeMultiplier, Add/Sub Prepare), Python Fractions"),
+    "C19": dict(
+        technique="property-based testing: exhaustive 8-bit pair / 16-bit single sweeps and Hypothesis boundary-biased 32-bit operands against a gemmlowp reference on Python ints; generated table parameters against mpmath (100-bit) and ports of the TFLite integer kernels",
+        text="fp_math helpers are called with every operand type production uses (Python int, np.int8/16/32/64) and compared bit for bit with a Python-int gemmlowp reference (any exception or NumPy overflow warning is a violation); sigmoid/tanh/exp/sqrt/gelu tables against a correctly rounded mpmath value, leaky-relu and hard-swish tables against ports of the TFLite kernels, optimise_quantize constants against TFLite Requantize.",
+        note="trusted base: lib/tflref.py + the gemmlowp/TFLite ports in lib/props/c19.py, mpmath"),
 }
